@@ -243,3 +243,37 @@ fn deterministic_in_seed_and_order() {
     std::mem::forget(c1);
     std::mem::forget(c2);
 }
+
+/// Configuration reaches the service whatever the order of the builder calls: seed,
+/// latency rate and latency bounds set BEFORE `error_rate`, BETWEEN `error_rate` and
+/// `error_fn` (the two type-changing steps) or AFTER `error_fn` are the ones in the
+/// layer's config, together with the error rate.
+#[kani::proof]
+#[kani::unwind(4)]
+fn builder_is_faithful() {
+    let seed: u64 = kani::any();
+    let er = any_rate();
+    let lr = any_rate();
+    let min_l = any_millis(100_000);
+    let max_l = any_millis(100_000);
+    let stage: u8 = kani::any();
+    kani::assume(stage < 3);
+    let mut b0 = crate::ChaosLayer::builder();
+    if stage == 0 {
+        b0 = b0.seed(seed).latency_rate(lr).min_latency(min_l).max_latency(max_l);
+    }
+    let mut b1 = b0.error_rate(er);
+    if stage == 1 {
+        b1 = b1.seed(seed).latency_rate(lr).min_latency(min_l).max_latency(max_l);
+    }
+    let mut b2 = b1.error_fn(inject as fn(&u32) -> InnerErr);
+    if stage == 2 {
+        b2 = b2.seed(seed).latency_rate(lr).min_latency(min_l).max_latency(max_l);
+    }
+    let layer = b2.build();
+    let c = layer.model_config();
+    assert!(c.seed == Some(seed), "[C19.config_seed_used] the configured seed reaches the layer whatever the builder order");
+    assert!(crate::config::ErrorInjector::<u32, InnerErr>::error_rate(&c.error_injector) == er, "[C19.config_error_rate_used] the configured error rate reaches the layer");
+    assert!(c.latency_rate == lr && c.min_latency == min_l && c.max_latency == max_l, "[C19.config_latency_used] the configured latency rate and bounds reach the layer");
+    std::mem::forget(layer);
+}
